@@ -30,9 +30,11 @@ import (
 // ===================================================================================================
 
 type vdDiskOpen struct {
-	path   string
-	pos    int
-	closed bool
+	path     string
+	pos      int // read offset
+	wpos     int // write offset
+	appendTo bool
+	closed   bool
 }
 
 type vdDiskFS struct {
@@ -113,10 +115,48 @@ func verifOSFileWrite(file *os.File, p []byte) (int, error) {
 	if of == nil || of.closed {
 		return 0, &fs.PathError{Op: "write", Path: "?", Err: fs.ErrClosed}
 	}
-	if _, ok := f.files[of.path]; ok {
-		f.files[of.path] = append(append([]byte(nil), f.files[of.path]...), p...)
+	// write(2) on a regular file: the bytes land at the handle's offset (the end with O_APPEND), overwrite what is
+	// there and extend the file past its end
+	if cur, ok := f.files[of.path]; ok {
+		if of.appendTo || of.wpos > len(cur) {
+			of.wpos = len(cur)
+		}
+		out := append([]byte(nil), cur[:of.wpos]...)
+		out = append(out, p...)
+		if of.wpos+len(p) < len(cur) {
+			out = append(out, cur[of.wpos+len(p):]...)
+		}
+		of.wpos += len(p)
+		f.files[of.path] = out
 	}
 	return len(p), nil
+}
+
+// verifOSOpenFile models open(2) for regular files: O_CREATE (with O_EXCL), O_TRUNC, O_APPEND.
+func verifOSOpenFile(name string, flag int, perm os.FileMode) (*os.File, error) {
+	f := vdDisk
+	if f.dirs[name] {
+		if flag&(os.O_WRONLY|os.O_RDWR|os.O_CREATE|os.O_TRUNC) != 0 {
+			return nil, &fs.PathError{Op: "open", Path: name, Err: errors.New("is a directory")}
+		}
+		return f.newFile(name), nil
+	}
+	if _, exists := f.files[name]; !exists {
+		if flag&os.O_CREATE == 0 || !f.dirs[vdDiskDirOf(name)] {
+			return nil, &fs.PathError{Op: "open", Path: name, Err: fs.ErrNotExist}
+		}
+		f.files[name] = []byte{}
+	} else {
+		if flag&os.O_CREATE != 0 && flag&os.O_EXCL != 0 {
+			return nil, &fs.PathError{Op: "open", Path: name, Err: fs.ErrExist}
+		}
+		if flag&os.O_TRUNC != 0 && flag&(os.O_WRONLY|os.O_RDWR) != 0 {
+			f.files[name] = []byte{}
+		}
+	}
+	file := f.newFile(name)
+	f.open[file].appendTo = flag&os.O_APPEND != 0
+	return file, nil
 }
 
 func verifOSFileRead(file *os.File, p []byte) (int, error) {
